@@ -290,4 +290,197 @@ theorem getSlice_err {a : Poly} {start stop step : Option Int} {m : Err}
     (h : a.indices start stop step = .error m) : a.getSlice start stop step = .error m := by
   simp [getSlice, h, bind, Except.bind]
 
+
+theorem setInt_err (a : Poly) {i : Int} (h : i < -(a.dim:Int) ∨ (a.dim:Int) ≤ i) (v : Int) :
+    a.setInt i v = .error "IndexError" := by
+  simp only [dim] at h
+  simp [setInt, normIndex_none h]
+
+/-- `a[i] = v` for an int index in range: coefficient `pos i` becomes v (reduced into the ring), every other coefficient,
+    the dimension and the ring are unchanged -/
+theorem setInt_frame (a : Poly) {i : Int} (h : -(a.dim:Int) ≤ i ∧ i < a.dim) (v : Int) :
+    ∃ r, a.setInt i v = .ok r ∧ r.size = a.size ∧ r.dim = a.dim ∧
+      r.e (Spec.Poly.pos a.dim i) = red a.size v ∧ ∀ m, m ≠ Spec.Poly.pos a.dim i → r.e m = a.e m := by
+  refine ⟨_, setInt_ok a h v, rfl, by simp [dim], ?_, ?_⟩
+  · have := e_set a.ival a.size (Spec.Poly.pos a.dim i) (red a.size v) (pos_lt h) (Spec.Poly.pos a.dim i)
+    simpa using this
+  · intro m hm
+    have := e_set a.ival a.size (Spec.Poly.pos a.dim i) (red a.size v) (pos_lt h) m
+    simpa [hm] using this
+
+theorem setInt_WF {a r : Poly} (ha : a.WF) {i v : Int} (h : a.setInt i v = .ok r) : r.WF := by
+  unfold setInt at h
+  split at h
+  · cases h
+    apply WF_of_forall
+    intro x hx
+    by_cases hk : a.size = 0
+    · exact Or.inl hk
+    · right
+      rcases List.mem_or_eq_of_mem_set hx with hx | rfl
+      · rcases ha with ha | ha
+        · exact absurd ha hk
+        · exact ha x hx
+      · exact red_range (Nat.pos_of_ne_zero hk) _
+  · cases h
+
+/-- `for j,b in zip(r,v): self[j] = b` with every visited index in range: the dimension and the ring are unchanged,
+    a position no visited index denotes keeps its coefficient (frame), and a visited position holds the value assigned
+    to it last (so for distinct indices: its own value; with repeats: the last one wins) -/
+theorem setMany_frame : ∀ (idx vals : List Int) (a : Poly),
+    (∀ p ∈ idx.zip vals, -(a.dim:Int) ≤ p.1 ∧ p.1 < a.dim) →
+    ∃ r, a.setMany idx vals = .ok r ∧ r.size = a.size ∧ r.dim = a.dim ∧
+      (∀ m, (∀ p ∈ idx.zip vals, Spec.Poly.pos a.dim p.1 ≠ m) → r.e m = a.e m) ∧
+      (∀ t (ht : t < (idx.zip vals).length),
+        (∀ t' (ht' : t' < (idx.zip vals).length), t < t' → Spec.Poly.pos a.dim (idx.zip vals)[t'].1 ≠ Spec.Poly.pos a.dim (idx.zip vals)[t].1) →
+        r.e (Spec.Poly.pos a.dim (idx.zip vals)[t].1) = red a.size (idx.zip vals)[t].2)
+  | [], vals, a, _ => ⟨a, setMany_nil_left a vals, rfl, rfl, fun _ _ => rfl, fun t ht => by simp at ht⟩
+  | j :: js, [], a, _ => ⟨a, setMany_nil_right a _, rfl, rfl, fun _ _ => rfl, fun t ht => by simp at ht⟩
+  | j :: js, v :: vs, a, hin => by
+    have hj := hin (j, v) (by simp)
+    obtain ⟨a', ha', hs', hd', hsel', hfr'⟩ := setInt_frame a hj v
+    have hin' : ∀ p ∈ js.zip vs, -(a'.dim:Int) ≤ p.1 ∧ p.1 < a'.dim := by
+      intro p hp; rw [hd']; exact hin p (by simp [hp])
+    obtain ⟨r, hr, hs, hd, hfr, hsel⟩ := setMany_frame js vs a' hin'
+    refine ⟨r, ?_, hs.trans hs', hd.trans hd', ?_, ?_⟩
+    · rw [setMany_cons, ha']; exact hr
+    · intro m hm
+      rw [hfr m (fun p hp => by rw [hd']; exact hm p (by simp [hp]))]
+      exact hfr' m (Ne.symm (hm (j, v) (by simp)))
+    · intro t ht hlast
+      cases t with
+      | zero =>
+        simp only [List.zip_cons_cons, List.getElem_cons_zero]
+        rw [hfr _ ?_, hsel']
+        intro p hp
+        obtain ⟨t', ht', rfl⟩ := List.getElem_of_mem hp
+        have := hlast (t'+1) (by simpa using ht') (by omega)
+        simpa [hd'] using this
+      | succ t =>
+        simp only [List.zip_cons_cons, List.getElem_cons_succ]
+        have ht2 : t < (js.zip vs).length := by simpa using ht
+        have := hsel t ht2 (fun t' ht' htt' => by
+          have := hlast (t'+1) (by simpa using ht') (by omega)
+          simpa [hd'] using this)
+        rw [hd', hs'] at this
+        exact this
+
+theorem setMany_WF : ∀ (idx vals : List Int) {a r : Poly}, a.WF → a.setMany idx vals = .ok r → r.WF
+  | [], vals, a, r, ha, h => by rw [setMany_nil_left] at h; cases h; exact ha
+  | j :: js, [], a, r, ha, h => by rw [setMany_nil_right] at h; cases h; exact ha
+  | j :: js, v :: vs, a, r, ha, h => by
+    rw [setMany_cons] at h
+    cases h1 : a.setInt j v with
+    | error m => rw [h1] at h; cases h
+    | ok a' =>
+      rw [h1] at h
+      exact setMany_WF js vs (setInt_WF ha h1) h
+
+/-- an index out of range among the visited ones is refused (IndexError) -/
+theorem setMany_err : ∀ (idx vals : List Int) (a : Poly),
+    (∃ p ∈ idx.zip vals, p.1 < -(a.dim:Int) ∨ (a.dim:Int) ≤ p.1) → ∃ m, a.setMany idx vals = .error m
+  | [], vals, a, h => by obtain ⟨p, hp, _⟩ := h; simp at hp
+  | j :: js, [], a, h => by obtain ⟨p, hp, _⟩ := h; simp at hp
+  | j :: js, v :: vs, a, h => by
+    rw [setMany_cons]
+    by_cases hj : -(a.dim:Int) ≤ j ∧ j < a.dim
+    · obtain ⟨a', ha', _, hd', _, _⟩ := setInt_frame a hj v
+      rw [ha']
+      apply setMany_err js vs a'
+      obtain ⟨p, hp, hr⟩ := h
+      simp only [List.zip_cons_cons, List.mem_cons] at hp
+      rcases hp with rfl | hp
+      · omega
+      · exact ⟨p, hp, by rw [hd']; exact hr⟩
+    · rw [setInt_err a (by omega) v]; exact ⟨_, rfl⟩
+
+theorem ofList_size (l : List Int) (k d : Nat) : (ofList l k d).size = k := by
+  unfold ofList; simp only; split <;> rfl
+
+theorem ofList_ival (l : List Int) (k d : Nat) :
+    (ofList l k d).ival = Spec.Poly.fit d (Spec.Poly.norm k l) := by
+  unfold ofList Spec.Poly.fit Spec.Poly.norm
+  have hm : l.map (red k) = l.map (Spec.Poly.norm1 k) := List.map_congr_left (fun x _ => rfl)
+  by_cases hd : d = 0
+  · simp only [hd, if_true]; exact hm
+  · simp only [hd, if_false]
+    rw [hm]; exact take_pad _ d
+
+/-- `a[idx] = v` for a list value of the same length assigns pairwise -/
+theorem setIdx_list_eq (a : Poly) {idx l : List Int} (h : idx.length = l.length) :
+    a.setIdx idx (.list l) = a.setMany idx l := by
+  simp [setIdx, h]
+
+/-- a list value of another length is first forced to the length of the index sequence (truncated / zero-extended) -/
+theorem setIdx_list_ne (a : Poly) {idx l : List Int} (h : idx.length ≠ l.length) :
+    a.setIdx idx (.list l) = a.setMany idx (Spec.Poly.fit idx.length (Spec.Poly.norm a.size l)) := by
+  simp [setIdx, h, ofList_ival]
+
+/-- a scalar value x is the vector (x,0,0,…) of the length of the index sequence -/
+theorem setIdx_int (a : Poly) (idx : List Int) (x : Int) :
+    a.setIdx idx (.int x) = a.setMany idx (Spec.Poly.fit idx.length [Spec.Poly.norm1 a.size x]) := by
+  simp [setIdx, ofList_ival, Spec.Poly.norm]
+
+theorem setIdx_WF {a r : Poly} (ha : a.WF) {idx : List Int} {v : RVal} (h : a.setIdx idx v = .ok r) : r.WF := by
+  unfold setIdx at h
+  split at h
+  · split at h <;> exact setMany_WF _ _ ha h
+  · exact setMany_WF _ _ ha h
+
+/-- `a[start:stop:step] = v` assigns through the index sequence of the slice -/
+theorem setSlice_spec {a : Poly} {start stop step : Option Int} {r : List Int}
+    (h : a.indices start stop step = .ok r) (v : RVal) :
+    a.setSlice start stop step v = a.setIdx r v := by
+  simp [setSlice, h, bind, Except.bind]
+
+theorem setSlice_err {a : Poly} {start stop step : Option Int} {m : Err}
+    (h : a.indices start stop step = .error m) (v : RVal) : a.setSlice start stop step v = .error m := by
+  simp [setSlice, h, bind, Except.bind]
+
+theorem setSlice_WF {a r : Poly} (ha : a.WF) {start stop step : Option Int} {v : RVal}
+    (h : a.setSlice start stop step v = .ok r) : r.WF := by
+  unfold setSlice at h
+  cases hi : a.indices start stop step with
+  | error m => rw [hi] at h; cases h
+  | ok idx => rw [hi] at h; exact setIdx_WF ha h
+
+theorem ofList_WF (l : List Int) (k d : Nat) : (ofList l k d).WF := by
+  have h1 := ofList_ival l k d
+  have h2 := ofList_size l k d
+  have : ofList l k d = ⟨Spec.Poly.fit d (Spec.Poly.norm k l), k⟩ := by
+    cases h : ofList l k d with | mk i s => simp_all
+  rw [this]
+  apply fit_WF
+  exact WF_map_red l k id
+
+theorem ofInt_spec (v : Int) (k d : Nat) :
+    (ofInt v k d).ival = Spec.Poly.fit d [Spec.Poly.norm1 k v] ∧ (ofInt v k d).size = k ∧ (ofInt v k d).WF :=
+  ⟨by simp [ofInt, ofList_ival, Spec.Poly.norm], ofList_size _ _ _, ofList_WF _ _ _⟩
+
+theorem ofBytes_spec (s : List Nat) (d : Nat) (hs : ∀ b ∈ s, b < 256) :
+    (ofBytes s d).ival = Spec.Poly.fit d (s.map Int.ofNat) ∧ (ofBytes s d).size = 8 ∧ (ofBytes s d).WF := by
+  refine ⟨?_, ofList_size _ _ _, ofList_WF _ _ _⟩
+  simp only [ofBytes, ofList_ival, Spec.Poly.norm, List.map_map]
+  congr 1
+  apply List.map_congr_left
+  intro b hb
+  have := hs b hb
+  simp only [Function.comp, Spec.Poly.norm1]
+  rw [if_neg (by decide)]
+  have h8 : ((2:Int)^8) = 256 := by decide
+  rw [h8]
+  show (b:Int) % 256 = (b:Int)
+  omega
+
+theorem setDim_spec (a : Poly) {d : Nat} (hd : 0 < d) :
+    a.setDim d = .ok ⟨Spec.Poly.fit d a.ival, a.size⟩ := by
+  simp only [setDim, Nat.ne_of_gt hd, if_false, Spec.Poly.fit, take_pad]
+
+theorem setDim_err (a : Poly) : a.setDim 0 = .error "AssertionError" := by simp [setDim]
+
+theorem setDim_WF {a r : Poly} (ha : a.WF) {d : Nat} (h : a.setDim d = .ok r) : r.WF := by
+  by_cases hd : d = 0
+  · subst hd; rw [setDim_err] at h; cases h
+  · rw [setDim_spec a (Nat.pos_of_ne_zero hd)] at h; cases h; exact fit_WF ha d
+
 end Proofs.C16
